@@ -49,14 +49,9 @@ Proof. exact swap_negates. Qed.
 (* ---- barycentric weights ------------------------------------------------------------------------------- *)
 (* (float arrays, every triangle: on a zero-area triangle the code's epsilon guard gives the weights (1,0,0).  On
    INTEGER arrays the guard is lost for zero-area triangles and the row is NaN -- next theorem; zero-area triangles
-   are outside the property's domain for barycentric weights) *)
+   are outside the property's domain for barycentric weights; C15_bary_integer_arrays in the definitional block) *)
 Theorem C15_bary_sum_one : forall t p, vsum3 (bary ROps t p) = 1.
 Proof. exact bary_sum_one. Qed.
-(* the same call on int64 arrays: identical for non-degenerate triangles, a NaN row (None) for zero-area ones *)
-Theorem C15_bary_integer_arrays : forall t p,
-  (nondegenerate t -> bary_intarray ROps t p = Some (bary ROps t p)) /\
-  (~ nondegenerate t -> bary_intarray ROps t p = None).
-Proof. exact bary_intarray_spec. Qed.
 (* the weights reconstruct the orthogonal projection of p onto the triangle's plane ... *)
 Theorem C15_bary_reconstructs_projection : forall t p, nondegenerate t ->
   bary_combine ROps t (bary ROps t p) = plane_projection t p.
@@ -186,6 +181,13 @@ Theorem C15_contains_is_three_same_side : forall a b c p,
   tri_contains ROps a b c p =
   (same_side ROps b c p a && same_side ROps a c p b) && same_side ROps a b p c.
 Proof. exact contains_is_three_same_side. Qed.
+(* the same call on int64 arrays: identical for non-degenerate triangles, a NaN row (None) for zero-area ones.  This
+   unfolds the case split written into the model `bary_intarray`; that the code behaves so on integer arrays is carried
+   by the correspondence (CBary with isint = true, zero-area triangles included) *)
+Theorem C15_bary_integer_arrays : forall t p,
+  (nondegenerate t -> bary_intarray ROps t p = Some (bary ROps t p)) /\
+  (~ nondegenerate t -> bary_intarray ROps t p = None).
+Proof. exact bary_intarray_spec. Qed.
 
 (* non-vacuity: a non-degenerate triangle, admissible weights with a zero entry *)
 Example C15_nondegenerate_inhabited : nondegenerate (Tri (V3 0 0 0) (V3 1 0 0) (V3 0 1 0)).
